@@ -186,7 +186,15 @@ impl Remover {
                     Some(current + (end_cursor - start_cursor).max(0) + 1),
                 ));
                 if start_cursor < end_cursor {
-                    acc.extend(child_markers[start_cursor..end_cursor].to_owned());
+                    // Pair indices of the children are relative to child_markers: rebase them onto acc.
+                    acc.extend(child_markers[start_cursor..end_cursor].iter().map(
+                        |(range, pair_idx)| {
+                            let pair_idx = pair_idx
+                                .filter(|idx| (start_cursor..end_cursor).contains(idx))
+                                .map(|idx| current + 1 + (idx - start_cursor));
+                            (range.clone(), pair_idx)
+                        },
+                    ));
                 }
                 acc.push((end_marker, Some(current)));
             } else {
